@@ -70,7 +70,10 @@ Definition n_accept (mfs : N) (u : suser) : suser :=
                                     ce_answer := ce_answer e; ce_len := 0 |}) (u_cache u) |>
     <| u_fragsize := mfs |> <| u_locked := true |>.
 
-Definition logitem : Type := nat * suser * which_q.
+Inductive logitem :=
+| LEmit (i : nat) (u : suser) (w : which_q)     (* send_chunk_or_dataless u w for session i *)
+| LNacc (i : nat) (mfs : N)                     (* accepted N for session i *)
+| LVreset (i : nat).                            (* session i claimed and reset by V *)
 
 Inductive mstep (c : cfg) (k : bool) : sstate -> list out -> list logitem -> sstate -> Prop :=
 | ms_frame st st' :
@@ -79,15 +82,15 @@ Inductive mstep (c : cfg) (k : bool) : sstate -> list out -> list logitem -> sst
 | ms_emit st i w u' o ag :
     k = true -> (i < length st)%nat -> h_id (getq (getu st i) w) <> 0 ->
     send_chunk_or_dataless (getu st i) w = (u', o, ag) ->
-    mstep c k st o [(i, getu st i, w)] (upd st i (fun _ => u'))
+    mstep c k st o [LEmit i (getu st i) w] (upd st i (fun _ => u'))
 | ms_replay st i q e :
     k = true -> (i < length st)%nat -> nslot c (h_name q) = Some i ->
     answer_from_dnscache (getu st i) (h_name q) (h_type q) = Some e ->
     mstep c k st [mk_answer q (firstn (N.to_nat (ce_len e)) (ce_answer e)) (u_downenc (getu st i))] [] st
 | ms_naccept st i mfs :
-    k = false -> 2 <= mfs -> mfs < 65536 -> mstep c k st [] [] (upd st i (n_accept mfs))
+    k = false -> 2 <= mfs -> mfs < 65536 -> mstep c k st [] [LNacc i mfs] (upd st i (n_accept mfs))
 | ms_vreset st i now q seed :
-    k = false -> mstep c k st [] [] (upd st i (fun u => reset_session (claim now u) q seed)).
+    k = false -> mstep c k st [] [LVreset i] (upd st i (fun u => reset_session (claim now u) q seed)).
 
 Inductive msteps (c : cfg) (k : bool) : sstate -> list out -> list logitem -> sstate -> Prop :=
 | mss_nil st : msteps c k st [] [] st
@@ -154,7 +157,7 @@ Inductive ustep (c : cfg) (i : nat) : suser -> list out -> list (suser * which_q
 
 Lemma ustep_lift c i u o l u' :
   ustep c i u o l u' -> forall st, (i < length st)%nat -> getu st i = u ->
-  msteps c true st o (map (fun p => (i, fst p, snd p)) l) (upd st i (fun _ => u')).
+  msteps c true st o (map (fun p => LEmit i (fst p) (snd p)) l) (upd st i (fun _ => u')).
 Proof.
   intros H. induction H as [u u' Hf|u ua w u' o1 ag o l u'' Hf Hid Hs Hrest IH]; intros st Hi Hu.
   - simpl. apply msteps_one. apply frame_upd. rewrite Hu. exact Hf.
@@ -162,7 +165,7 @@ Proof.
     set (st1 := upd st i (fun _ => ua)).
     assert (L1 : (i < length st1)%nat) by (unfold st1; rewrite upd_length; exact Hi).
     assert (G1 : getu st1 i = ua) by (unfold st1; apply getu_upd_same, Hi).
-    assert (M2 : mstep c true st1 o1 [(i, ua, w)] (upd st1 i (fun _ => u'))).
+    assert (M2 : mstep c true st1 o1 [LEmit i ua w] (upd st1 i (fun _ => u'))).
     { rewrite <- G1 at 1. apply (ms_emit c true st1 i w u' o1 ag); [reflexivity|exact L1|rewrite G1; exact Hid|rewrite G1; exact Hs]. }
     set (st2 := upd st1 i (fun _ => u')).
     assert (L2 : (i < length st2)%nat) by (unfold st2; rewrite upd_length; exact L1).
@@ -172,7 +175,7 @@ Proof.
     { unfold st2, st1. rewrite !upd_upd. reflexivity. }
     rewrite E in IH.
     change (o1 ++ o) with ([] ++ o1 ++ o).
-    change (map (fun p => (i, fst p, snd p)) ((ua, w) :: l)) with ([] ++ [(i, ua, w)] ++ map (fun p => (i, fst p, snd p)) l).
+    change (map (fun p => LEmit i (fst p) (snd p)) ((ua, w) :: l)) with ([] ++ [LEmit i ua w] ++ map (fun p => LEmit i (fst p) (snd p)) l).
     eapply mss_cons; [exact M1|]. eapply mss_cons; [exact M2|]. exact IH.
 Qed.
 
@@ -518,7 +521,7 @@ Proof.
       by (rewrite <- Hc0; eapply not_pd; [exact LV|reflexivity|reflexivity]).
     destruct (_ =? src_PROTOCOL_VERSION); [|left; leaf NP].
     destruct (find_available_from st now 0) as [i|]; [|left; leaf NP].
-    right. exists ([] ++ []). cbn [fst snd].
+    right. eexists (_ ++ []). cbn [fst snd].
     match goal with |- msteps _ _ _ ?o _ _ => change o with ([] ++ o) end.
     eapply mss_cons; [apply ms_vreset; reflexivity|]. apply msteps_one, ms_ctl. constructor; [left; exact NP|constructor]. }
   destruct (is_letter c0 108) eqn:LL.
@@ -555,7 +558,7 @@ Proof.
     destruct (_ <? 3)%nat; [left; leaf NP|].
     destruct (check_auth_options _ _ _ _ _); [left; leaf NP|].
     match goal with |- context [if ?m <? 2 then _ else _] => set (mfs := m); destruct (mfs <? 2) eqn:M end; [left; leaf NP|].
-    right. exists ([] ++ []). cbn [fst snd].
+    right. eexists (_ ++ []). cbn [fst snd].
     match goal with |- msteps _ _ _ ?o _ _ => change o with ([] ++ o) end.
     eapply mss_cons.
     - apply (ms_naccept c false st (Z.to_nat (schar (chr unpacked 0))) mfs); [reflexivity|lia|].
@@ -680,7 +683,7 @@ Proof.
               negb (u_qs_new (getu st i))) eqn:E.
     + destruct (send_chunk_or_dataless (getu st i) WQS) as [[u' o] ag] eqn:Hscd.
       destruct (IH (S i) (upd st i (fun _ => u')) (acc ++ o)) as (o2 & l2 & st2 & E2 & M2).
-      exists (o ++ o2), ([(i, getu st i, WQS)] ++ l2), st2. rewrite E2, app_assoc. split; [reflexivity|].
+      exists (o ++ o2), ([LEmit i (getu st i) WQS] ++ l2), st2. rewrite E2, app_assoc. split; [reflexivity|].
       eapply mss_cons; [|exact M2].
       repeat (apply andb_prop in E; destruct E as [E ?]).
       apply (ms_emit c true st i WQS u' o ag); [reflexivity| | |exact Hscd].
